@@ -40,10 +40,20 @@ type c16Case struct {
 	// the names of this case, put there by somebody else (another Set sharing the Cache, the application).
 	// Development mode must not serve them; otherwise they are hits like any other.
 	ForeignCache bool `json:"foreign_cache,omitempty"`
+	// Refusing (with RecCache, not in development mode): the Cache admits nothing (a full cache, one that only
+	// admits what it likes): Put is recorded and dropped, Get finds nothing. Every lookup is then a cold one that
+	// still answers with a template or an error.
+	Refusing bool `json:"refusing,omitempty"`
 }
 
 // (indices are part of saved cases: append only) - the last name itself ends in what may be a configured extension
 var c16Names = []string{"/a", "/b", "/sub/c", "/d", "/e.jet"}
+
+// c16Own: path is name itself or name plus a suffix (an extension, dotted or not); no name of the pool is the
+// beginning of another one
+func c16Own(path, name string) bool {
+	return strings.HasPrefix(path, name) && !strings.Contains(path[len(name):], "/")
+}
 
 type c16File struct {
 	variant string
@@ -110,6 +120,7 @@ func genC16(t *rapid.T) c16Case {
 	c.RecCache = rapid.Bool().Draw(t, "recCache")
 	c.Exts = c15ExtLists[rapid.IntRange(0, len(c15ExtLists)-1).Draw(t, "exts")]
 	c.ForeignCache = c.Dev && c.RecCache && rapid.Bool().Draw(t, "foreignCache")
+	c.Refusing = !c.Dev && c.RecCache && rapid.IntRange(0, 3).Draw(t, "refusingCache") == 0
 	n := rapid.IntRange(2, 20).Draw(t, "nops")
 	for i := 0; i < n; i++ {
 		op := c16Op{Name: rapid.IntRange(0, len(c16Names)-1).Draw(t, "name")}
@@ -285,8 +296,11 @@ func judgeC16(c c16Case) (v core.Verdict) {
 	opts := []jet.Option{jet.WithTemplateNameExtensions(c.Exts), jet.DevelopmentMode(c.Dev)}
 	var rc *recCache
 	if c.RecCache {
-		rc = &recCache{mu: new(sync.Mutex), m: map[string]*jet.Template{}, trace: &trace}
+		rc = &recCache{mu: new(sync.Mutex), m: map[string]*jet.Template{}, trace: &trace, refuse: c.Refusing}
 		opts = append(opts, jet.WithCache(rc))
+		if c.Refusing {
+			v.Label("cache-that-admits-nothing")
+		}
 	}
 	s := jet.NewSet(fl, opts...)
 	if c.ForeignCache {
@@ -372,7 +386,7 @@ func judgeC16(c c16Case) (v core.Verdict) {
 				// what Parse extends / imports is looked up like any other name: a cached template is used as it is
 				dn := c16Names[op.Dep]
 				for _, e := range loaderEvents() {
-					if strings.HasPrefix(e.Path, dn) && (len(e.Path) == len(dn) || e.Path[len(dn)] == '.') {
+					if c16Own(e.Path, dn) {
 						v.Failf("%s: %s is cached, but Set.Parse of a template that %ss it asked the loader for it: %v", hist(i), dn, op.Variant, loaderEvents())
 						return
 					}
@@ -447,6 +461,10 @@ func judgeC16(c c16Case) (v core.Verdict) {
 				v.Failf("%s: GetTemplate panicked: %s", hist(i), o)
 				return
 			}
+			if o.Err == nil && t == nil {
+				v.Failf("%s: GetTemplate(%s) returned neither a template nor an error", hist(i), name)
+				return
+			}
 			le := loaderEvents()
 			switch {
 			case c.Dev:
@@ -478,7 +496,7 @@ func judgeC16(c c16Case) (v core.Verdict) {
 				// cold lookups probe the candidates strictly in order and open exactly the first hit
 				var own []traceEv
 				for _, e := range le {
-					if strings.HasPrefix(e.Path, name) && (len(e.Path) == len(name) || e.Path[len(name)] == '.') {
+					if c16Own(e.Path, name) {
 						own = append(own, e)
 					}
 				}
@@ -512,7 +530,7 @@ func judgeC16(c c16Case) (v core.Verdict) {
 				if rc != nil && puts() > 0 && !c.Dev {
 					// only templates pulled in on the way (and loaded fine) may have been stored, never the failed one
 					for _, e := range trace {
-						if e.Op == "Put" && strings.HasPrefix(e.Path, name) && (len(e.Path) == len(name) || e.Path[len(name)] == '.') {
+						if e.Op == "Put" && c16Own(e.Path, name) {
 							v.Failf("%s: failed lookup of %s stored it in the cache: %v", hist(i), name, trace)
 							return
 						}
@@ -521,13 +539,15 @@ func judgeC16(c c16Case) (v core.Verdict) {
 				if !c.Dev && st != stCached {
 					m.status[op.Name] = stNot
 				}
+			} else if c.Refusing {
+				// nothing was admitted: the next lookup is as cold as this one
 			} else if !c.Dev {
 				m.status[op.Name] = stCached
 				m.ptr[op.Name] = t
 			} else if f, ok := m.current(op.Name); ok {
 				held[op.Name] = heldTpl{t, f}
 			}
-			if !c.Dev {
+			if !c.Dev && !c.Refusing {
 				for d := range touched {
 					if m.status[d] == stNot {
 						m.status[d] = stMaybe
@@ -543,10 +563,11 @@ func judgeC16(c c16Case) (v core.Verdict) {
 					v.Failf("%s: Execute panicked: %s", hist(i), eo)
 					return
 				}
-				if c.Dev && m.indet {
+				if (c.Dev || c.Refusing) && m.indet {
 					v.Label("exec:outcome-left-open")
-				} else if c.Dev {
-					if puts() > 0 {
+				} else if c.Dev || c.Refusing {
+					// (a cache that admits nothing makes every lookup a fresh load, like development mode)
+					if c.Dev && puts() > 0 {
 						v.Failf("%s: development mode stored a template in the cache during Execute: %v", hist(i), trace)
 						return
 					}
@@ -566,14 +587,16 @@ func judgeC16(c c16Case) (v core.Verdict) {
 							continue
 						}
 						for _, e := range loaderEvents() {
-							if strings.HasPrefix(e.Path, dn) && (len(e.Path) == len(dn) || e.Path[len(dn)] == '.') {
+							if c16Own(e.Path, dn) {
 								v.Failf("%s: %s is cached, but executing %s asked the loader for it: %v", hist(i), dn, name, loaderEvents())
 								return
 							}
 						}
 					}
 					// an include resolved at run time may cache its target: be conservative
-					m.markIncludes(op.Name, 0)
+					if !c.Refusing {
+						m.markIncludes(op.Name, 0)
+					}
 				}
 			}
 		}
